@@ -2104,9 +2104,10 @@ class _TrampolineArgs:
             if final is None:
                 # `nil` is how "no rest arguments" is passed to a variadic recur target
                 return self._args[:-1]
-            if isinstance(final, ISeq):
+            if isinstance(final, (ISeq, ISeqable)):
+                # Any seqable collection (not only a seq) is the rest collection
                 inits = self._args[:-1]
-                return tuple(itertools.chain(inits, final))
+                return tuple(itertools.chain(inits, to_seq(final) or ()))
             return self._args
         except IndexError:
             return ()
